@@ -300,17 +300,26 @@ def proof_status(mod, tier='quick'):
     vos = ['theories/' + f[:-2] + '.vo' for f in mod.COQ_FILES] + ['theories/Extract/%s.vo' % pid]
     rc, log = build_coq(vos)
     st['log'] = log[-4000:]
-    # 3. count obligations per file; discharged = statements in files whose .vo is up to date
+    # 3. count obligations per file; discharged = statements in files that make built / holds up to date
     for f in mod.COQ_FILES:
         path = os.path.join(COQ, 'theories', f)
         n = len(STMT.findall(strip_comments(open(path).read()))) if os.path.exists(path) else 0
         st['obligations'] += n
         vo = path[:-2] + '.vo'
-        if os.path.exists(vo) and os.path.getmtime(vo) >= os.path.getmtime(path):
+        if rc == 0 and os.path.exists(vo):
+            up = True                      # make succeeded for every requested target and its prerequisites
+        elif os.path.exists(vo):
+            up = sh('make -q theories/%s.vo' % f[:-2], cwd=COQ)[0] == 0
+        else:
+            up = False
+        if up:
             st['discharged'] += n
         else:
             st['ok'] = False
             st['failing'] = st['failing'] or ('does not compile: ' + f + ' :: ' + first_error(log))
+    if rc != 0 and st['ok']:
+        st['ok'] = False
+        st['failing'] = 'make failed: ' + first_error(log)
     # 4. Print Assumptions of the property theorems (re-run coqc on the property file, capture stdout)
     prop = 'theories/Properties/%s.v' % pid
     if os.path.exists(os.path.join(COQ, prop)) and st['ok']:
